@@ -392,6 +392,22 @@ func pureRewrite(f *ast.File) {
 	f.Decls = append(f.Decls, keep)
 }
 
+// declaredIn reports whether f declares the package-level variable name.
+func declaredIn(name string, f *ast.File) bool {
+	for _, d := range f.Decls {
+		if gd, ok := d.(*ast.GenDecl); ok && gd.Tok == token.VAR {
+			for _, sp := range gd.Specs {
+				for _, n := range sp.(*ast.ValueSpec).Names {
+					if n.Name == name {
+						return true
+					}
+				}
+			}
+		}
+	}
+	return false
+}
+
 func main() {
 	out := flag.String("out", "", "output directory")
 	pkg := flag.String("pkg", "", "package name of the output files")
@@ -418,6 +434,7 @@ func main() {
 		fmt.Fprintf(os.Stderr, "vrewrite: written package-level variables: %v\n", gi.writtenNames())
 	}
 	var resetFuncs []string
+	var embedList []string
 	for fi, path := range flag.Args() {
 		fset := token.NewFileSet()
 		var f *ast.File
@@ -437,6 +454,9 @@ func main() {
 		f.Doc = nil
 		for _, cg := range f.Comments {
 			for _, cm := range cg.List {
+				if strings.HasPrefix(cm.Text, "//go:embed") && gi != nil {
+					continue // re-attached below, files mapped by vcheck
+				}
 				if strings.HasPrefix(cm.Text, "//go:embed") || strings.HasPrefix(cm.Text, "//go:linkname") {
 					fatal("%s: %s directives are not carried over by vrewrite", path, strings.Fields(cm.Text)[0])
 				}
@@ -499,6 +519,26 @@ func main() {
 		if err != nil {
 			fatal("%s: rewritten source does not parse: %v\n%s", path, err, buf.String())
 		}
+		if gi != nil {
+			// re-attach //go:embed directives (comments were dropped) and list the patterns
+			lines := strings.Split(string(src), "\n")
+			var outl []string
+			for _, ln := range lines {
+				if strings.HasPrefix(ln, "var ") {
+					f := strings.Fields(ln)
+					if len(f) >= 2 {
+						if d, ok := gi.embeds[f[1]]; ok && declaredIn(f[1], parsed[path]) {
+							outl = append(outl, d)
+							for _, pat := range strings.Fields(d)[1:] {
+								embedList = append(embedList, filepath.Dir(path)+"\t"+pat)
+							}
+						}
+					}
+				}
+				outl = append(outl, ln)
+			}
+			src = []byte(strings.Join(outl, "\n"))
+		}
 		rel := strings.TrimPrefix(filepath.Clean(path), "/")
 		parts := strings.Split(rel, "/")
 		if len(parts) > 3 {
@@ -512,6 +552,10 @@ func main() {
 	if gi != nil {
 		var b bytes.Buffer
 		fmt.Fprintf(&b, "package %s\n\n// zzWrittenGlobals lists the package-level variables whose accesses are scheduling points.\nvar zzWrittenGlobals = %#v\n\n", *pkg, gi.writtenNames())
+		fmt.Fprintf(&b, "// zzNotReset lists written variables that are set up by init functions or go:embed and therefore not re-initialised.\nvar zzNotReset = %#v\n\n", gi.notReset())
+		if len(embedList) > 0 {
+			os.WriteFile(filepath.Join(*out, "embed.list"), []byte(strings.Join(embedList, "\n")+"\n"), 0o644)
+		}
 		fmt.Fprintf(&b, "// zzResetGlobals restores the package's initial state.\nfunc zzResetGlobals() {\n")
 		for _, n := range resetFuncs {
 			fmt.Fprintf(&b, "\t%s()\n", n)
